@@ -89,13 +89,20 @@ if UNDER_XH and 'beartype' not in sys.modules:
 import beartype  # noqa: E402,F401
 
 
+REPR_CALLS = [0]      # calls of the (stubbed) object-representation helpers, reset by harnesses
+
+
 def _stub_text():
     from beartype._util.text import utiltextrepr as m
 
     def represent_object(obj, max_len=96):
+        import bearverif.xh.shim as _s
+        _s.REPR_CALLS[0] += 1
         return '<obj>'
 
     def represent_pith(pith):
+        import bearverif.xh.shim as _s
+        _s.REPR_CALLS[0] += 1
         return '<pith>'
     for name, f in (('represent_object', represent_object), ('represent_pith', represent_pith)):
         real = getattr(m, name)
